@@ -4,6 +4,7 @@ package interp
 // condition mirrored in one persistent solver process (push/pop), obligations.
 
 import (
+	"strconv"
 	"fmt"
 	"math/big"
 	"os"
@@ -32,6 +33,13 @@ type decision struct {
 	conds []*smt.Term
 	label string
 }
+
+var ufWindowDefault = func() int {
+	if v, err := strconv.Atoi(os.Getenv("SYMGO_UFWIN")); err == nil && v >= 0 {
+		return v
+	}
+	return 0
+}()
 
 type rangeDecl struct {
 	lo, hi *big.Rat
@@ -131,6 +139,11 @@ type Engine struct {
 	tags        []string
 	traceCalls  bool
 	reachTries  map[string]int
+	crossDone   map[string]int
+	Cross       map[string]int
+	facts       map[*smt.Term]bool
+	intTerms    []*smt.Term // ideal mode: real-sorted terms known to be integer-valued
+	truncOf     map[*smt.Term]*smt.Term // ideal mode: truncation is a function (same argument, same result)
 	exactNext   bool
 	hints       []*smt.Term
 	Probe       bool // probing run: no solver-backed obligations
@@ -162,11 +175,15 @@ func NewEngine(harness string, ideal bool, solverCmd []string, lim Limits) (*Eng
 	if err != nil {
 		return nil, err
 	}
+	if d := os.Getenv("SYMGO_DUMP"); d != "" {
+		f, _ := os.Create(fmt.Sprintf("%s/%s.%d.main.smt2", d, harness, time.Now().UnixNano()))
+		s.Log = f
+	}
 	return &Engine{
 		Ctx: ctx, S: s, Harness: harness, Lim: lim,
 		Obl: map[string]*ObligationResult{}, Reached: map[string]int{}, ReachWit: map[string]*Witness{},
 		Aborted: map[string]int{}, Funcs: map[string]int64{}, StubsHit: map[string]int{},
-		Ranges: map[string]rangeDecl{}, reachTries: map[string]int{}, NondetSites: map[string]int{}, KnownHits: map[string]int{}, KnownWit: map[string]*Witness{},
+		Ranges: map[string]rangeDecl{}, reachTries: map[string]int{}, crossDone: map[string]int{}, Cross: map[string]int{}, NondetSites: map[string]int{}, KnownHits: map[string]int{}, KnownWit: map[string]*Witness{},
 	}, nil
 }
 
@@ -198,7 +215,11 @@ func (e *Engine) beginPath() {
 	e.choiceNames = nil
 	e.tags = nil
 	e.hints = nil
+	e.facts = map[*smt.Term]bool{}
+	e.intTerms = nil
+	e.truncOf = map[*smt.Term]*smt.Term{}
 	e.OverflowChecks = false
+	e.S.UFWindow = ufWindowDefault
 	e.obsKeys = nil
 	e.obsTerms = map[string]*smt.Term{}
 }
@@ -260,6 +281,7 @@ func (e *Engine) Assume(t *smt.Term) {
 		}
 		return
 	}
+	e.facts[t] = true
 	if e.addPC(t) {
 		if e.check(e.Lim.BranchTO) == smt.Unsat {
 			panic(abortPath{"infeasible", "assumption contradicts path"})
@@ -272,12 +294,44 @@ func (e *Engine) Branch(cond *smt.Term, label string) bool {
 	if v, ok := cond.ConstBool(); ok {
 		return v
 	}
-	return e.choose(2, []*smt.Term{e.Ctx.Not(cond), cond}, label) == 1
+	// a condition already decided on this path (same hash-consed term) is not decided again:
+	// no solver query, no decision slot (deterministic: the cache depends only on the path so far)
+	if v, ok := e.facts[cond]; ok {
+		return v
+	}
+	if v, ok := e.facts[e.Ctx.Not(cond)]; ok {
+		return !v
+	}
+	r := e.choose(2, []*smt.Term{e.Ctx.Not(cond), cond}, label) == 1
+	e.facts[cond] = r
+	return r
 }
 
 // Choice: n-way fork on caller-provided (mutually exclusive, exhaustive) conditions.
 // conds[i]==nil means "no condition" (pure enumeration).
 func (e *Engine) choose(n int, conds []*smt.Term, label string) int {
+	if conds != nil {
+		// an alternative already known to hold on this path: no decision, no query
+		for i, c := range conds {
+			if c != nil {
+				if v, ok := e.facts[c]; ok && v {
+					return i
+				}
+			}
+		}
+	}
+	k := e.choose1(n, conds, label)
+	if conds != nil {
+		for i, c := range conds {
+			if c != nil {
+				e.facts[c] = i == k
+			}
+		}
+	}
+	return k
+}
+
+func (e *Engine) choose1(n int, conds []*smt.Term, label string) int {
 	if e.pos < len(e.decs) {
 		d := &e.decs[e.pos]
 		if d.n != n {
@@ -569,6 +623,39 @@ func (e *Engine) exactQuery(extra *smt.Term, to time.Duration) smt.Result {
 	return run(false)
 }
 
+// CrossCmds: additional solvers that re-decide a sample of the discharged obligation queries
+// (thorough tier): z3 4.8.12 and cvc5. A `sat` from any of them against the primary `unsat`
+// makes the obligation inconclusive.
+var CrossCmds = [][]string{{"z3", "-in"}, {"cvc5", "--incremental", "--lang", "smt2"}}
+
+func (e *Engine) crossCheck(id string, neg *smt.Term) {
+	if !e.Thorough || e.crossDone[id] >= 2 {
+		return
+	}
+	e.crossDone[id]++
+	for _, cmd := range CrossCmds {
+		sx, err := smt.NewSolver(e.Ctx, cmd)
+		if err != nil {
+			continue
+		}
+		sx.Abstract = e.S.Abstract
+		sx.UFWindow = e.S.UFWindow
+		for _, l := range e.pc {
+			for _, c := range l {
+				sx.Assert(c)
+			}
+		}
+		sx.Assert(neg)
+		r := sx.Check(20 * time.Second)
+		sx.Close()
+		key := cmd[0] + ":" + r.String()
+		e.Cross[key]++
+		if r == smt.Sat {
+			e.Incomplete = append(e.Incomplete, fmt.Sprintf("cross-solver disagreement on %s: %s answers sat, primary solver unsat", id, cmd[0]))
+		}
+	}
+}
+
 func (e *Engine) Assert2(id string, cond *smt.Term, note string) {
 	if e.replaying() {
 		// already decided by the run that first explored this prefix
@@ -661,6 +748,9 @@ func (e *Engine) Assert2(id string, cond *smt.Term, note string) {
 		e.S.PopTo(e.S.Level() - 1)
 	}
 	o.SolverMS += time.Since(start).Milliseconds()
+	if r == smt.Unsat && !e.S.Dead {
+		e.crossCheck(id, neg)
+	}
 	switch r {
 	case smt.Unsat:
 		o.Unsat++
